@@ -143,7 +143,10 @@ def parse_blocks(out):
         elif cur is None:
             continue
         elif l.startswith("T "):
-            res[cur]["t"].append(bytes.fromhex(l[2:]).decode("utf-8", "replace"))
+            try:
+                res[cur]["t"].append(bytes.fromhex(l[2:]).decode("utf-8", "replace"))
+            except ValueError:       # output cut in the middle of a line (child killed): block stays "not done"
+                break
         elif l.startswith("ERR "):
             res[cur]["err"] = int(l[4:])
         elif l.startswith("XCHK "):
